@@ -283,8 +283,10 @@ func debugOnlyDiagnostics(c Cfg, rec *Recorder) *Disc {
 		if len(off.Hdr[hACAO]) != 0 || off.Status != refusal {
 			continue // odd debug-off response; C16 judges it
 		}
-		if !c.AllowAll() && !model.DenotedBy(origin) && !bracketedHostEcho(model, origin) {
-			return discf("debug mode changes the response on the origin-failure path: %s", where)
+		// which diagnostics a failing preflight carries in debug mode (ok status, partial headers, the full list) is
+		// not pinned, not even for a failure at the origin step; but a disallowed origin is never told it is allowed
+		if !c.AllowAll() && !model.DenotedBy(origin) && !bracketedHostEcho(model, origin) && len(on.Hdr[hACAO]) != 0 {
+			return discf("debug mode answers a preflight from a disallowed origin with ACAO %q: %s", on.Hdr[hACAO], where)
 		}
 		if on.Status != refusal && on.Status != c.SuccessStatus() {
 			return discf("debug mode answers a failing preflight with status %d: %s", on.Status, where)
